@@ -30,6 +30,35 @@ theorem incPeriod_shape {v v' : VS} {t e : Nat} (h : v.incPeriod t = .ok (v', e)
   refine ⟨rfl, rfl, rfl, ?_⟩
   exact (prePeriod_fields v t).2.2.2.1
 
+theorem incPeriod_slashes {v v' : VS} {t e : Nat} (h : v.incPeriod t = .ok (v', e)) : v'.slashes = v.slashes := by
+  obtain ⟨_, _, rfl⟩ := incPeriod_ok h
+  exact (prePeriod_fields v t).2.2.2.2.1
+
+theorem withdrawMsg_slashes {v v' : VS} {h d c : Nat} (hw : v.withdrawMsg h d = .ok (v', c)) : v'.slashes = v.slashes := by
+  obtain ⟨va, hwa, hia⟩ := withdrawMsg_ok hw
+  obtain ⟨sh, si, v1, raw, v3, _, _, h1, _, h3, eva, _⟩ := withdrawRewards_ok hwa
+  obtain ⟨vb, sh', hinc, _, ev'⟩ := initDelegation_ok hia
+  obtain ⟨_, evb⟩ := incRef_ok hinc
+  obtain ⟨_, ev3⟩ := decRef_ok h3
+  have a : v'.slashes = va.slashes := by rw [ev', evb]
+  have b : va.slashes = v1.slashes := by rw [eva, ev3]; rfl
+  rw [a, b]; exact incPeriod_slashes h1
+
+theorem xferLookup_slashes {c : Cfg} {v v1 v2 : VS} {h t rt : Nat} (hl : VS.xferLookup c v v1 h t = .ok (v2, rt)) :
+    v2.slashes = v1.slashes := by
+  unfold VS.xferLookup at hl
+  split at hl
+  · split at hl
+    · split at hl
+      · cases hl
+      · rename_i v2' e h1
+        cases hl
+        exact incPeriod_slashes h1
+    · cases hl; rfl
+  · split at hl
+    · exact withdrawMsg_slashes hl
+    · cases hl; rfl
+
 /-- keeper `WithdrawDelegationRewards` under the invariant: the period is ended, the new record carries the
 cumulative ratio, nothing else moves in the ratios, current rewards are reset, and the delegator restarts in the
 period just ended with a stake re-derived from its shares -/
@@ -114,7 +143,7 @@ theorem xferFrom_shape {c : Cfg} (hg : good c = true) {v v2 v3 : VS} {f fsh X : 
     (hs : v2.sinfo f = some si) (hx : VS.xferFrom c v v2 f fsh X = .ok v3) :
     v3.sinfo = setAt v2.sinfo f (if fsh - X = 0 then none else some { si with stake := v.tokensFromSharesTrunc (fsh - X) }) ∧
     v3.ratio = v2.ratio ∧ v3.cur = v2.cur ∧ v3.period = v2.period ∧
-    (∀ x, v2.refs x ≠ 0 → x ≠ si.period → v3.refs x ≠ 0) := by
+    (∀ x, v2.refs x ≠ 0 → x ≠ si.period → v3.refs x ≠ 0) ∧ v3.slashes = v2.slashes := by
   obtain ⟨-, -, -, -, -, -, -, g8, g9, -⟩ := good_fields hg
   unfold VS.xferFrom at hx
   rw [hs] at hx
@@ -128,14 +157,14 @@ theorem xferFrom_shape {c : Cfg} (hg : good c = true) {v v2 v3 : VS} {f fsh X : 
       · rename_i b hb
         obtain ⟨_, rfl⟩ := decRef_ok hb
         cases hx
-        refine ⟨by rw [if_pos hz], rfl, rfl, rfl, ?_⟩
+        refine ⟨by rw [if_pos hz], rfl, rfl, rfl, ?_, rfl⟩
         intro x hx0 hne
         show setAt v2.refs si.period _ x ≠ 0
         simp only [setAt, hne, if_false]
         exact hx0
     · simp only [hz, if_false] at hx
       cases hx
-      exact ⟨by rw [if_neg hz], rfl, rfl, rfl, fun x hx0 _ => hx0⟩
+      exact ⟨by rw [if_neg hz], rfl, rfl, rfl, fun x hx0 _ => hx0, rfl⟩
 
 /-- the recipient's starting info as written by the last phase -/
 def toInfo (v v3 : VS) (h t X : Nat) : Option Nat → SInfo
@@ -146,7 +175,7 @@ theorem xferTo_shape {c : Cfg} (hg : good c = true) {v v3 v4 : VS} {h t X : Nat}
     (hfresh : o = none → v3.refs (v3.period - 1) ≠ 0) (hx : VS.xferTo c v v3 h t X o = .ok v4) :
     v4.sinfo = setAt v3.sinfo t (some (toInfo v v3 h t X o)) ∧
     (∀ x, v4.ratio x = v3.ratio x) ∧ v4.cur = v3.cur ∧ v4.period = v3.period ∧
-    (∀ x, v3.refs x ≠ 0 → v4.refs x ≠ 0) := by
+    (∀ x, v3.refs x ≠ 0 → v4.refs x ≠ 0) ∧ v4.slashes = v3.slashes := by
   obtain ⟨-, -, -, -, g5, -, -, -, -, g10, g11, -⟩ := good_fields hg
   unfold VS.xferTo at hx
   rw [g5, g10, g11] at hx
@@ -160,7 +189,7 @@ theorem xferTo_shape {c : Cfg} (hg : good c = true) {v v3 v4 : VS} {h t X : Nat}
       obtain ⟨_, rfl⟩ := incRef_ok h5
       cases hx
       have hf := hfresh rfl
-      refine ⟨by simp [toInfo, Nat.zero_add], ?_, rfl, rfl, ?_⟩
+      refine ⟨by simp [toInfo, Nat.zero_add], ?_, rfl, rfl, ?_, rfl⟩
       · intro x
         show setAt v3.ratio (v3.period - 1) _ x = v3.ratio x
         by_cases hx1 : x = v3.period - 1
@@ -178,7 +207,7 @@ theorem xferTo_shape {c : Cfg} (hg : good c = true) {v v3 v4 : VS} {h t X : Nat}
   | some tsh =>
     dsimp only at hx
     cases hx
-    exact ⟨rfl, fun _ => rfl, rfl, rfl, fun x hx0 => hx0⟩
+    exact ⟨rfl, fun _ => rfl, rfl, rfl, fun x hx0 => hx0, rfl⟩
 
 /-- **the hand-written starting infos.**  After a successful transfer between different accounts (state satisfying
 the invariant): two periods were ended, current rewards are zero, the cumulative ratio is the same at both period
@@ -190,7 +219,9 @@ theorem transfer_shape {c : Cfg} (hg : good c = true) {n : Nat} {v v' : VS} (hi 
     ∃ fsh, v.del f = some fsh ∧ v'.period = v.period + 2 ∧ v'.cur = 0 ∧
       v'.ratio v.period = v'.ratio (v.period + 1) ∧
       v'.sinfo t = some ⟨v.period + 1, v'.tokensFromSharesTrunc ((v.del t).getD 0 + X), h⟩ ∧
-      v'.sinfo f = (if fsh - X = 0 then none else some ⟨v.period, v'.tokensFromSharesTrunc (fsh - X), h⟩) := by
+      v'.sinfo f = (if fsh - X = 0 then none else some ⟨v.period, v'.tokensFromSharesTrunc (fsh - X), h⟩) ∧
+      (∀ d, d ≠ f → d ≠ t → v'.sinfo d = v.sinfo d) ∧ (∀ x, x < v.period → v'.ratio x = v.ratio x) ∧
+      v'.slashes = v.slashes := by
   obtain ⟨fsh, v1, v2, v3, hdf, _, hle, h1, h2, h3, h4⟩ := transfer_ok hg hne ht
   -- phase 1
   obtain ⟨sh, hsh, c1, p1, r1, o1, s1, rf1, sf1⟩ := withdrawMsg_shape hi.ri hi.dom hf h1
@@ -210,7 +241,7 @@ theorem transfer_shape {c : Cfg} (hg : good c = true) {n : Nat} {v v' : VS} (hi 
       | none => dsimp only; rw [s1]; simp [setAt]
       | some tsh => dsimp only; rw [s1]; simp [setAt, hne]
     -- phase 3
-    obtain ⟨s3, r3, c3, p3, k3⟩ := xferFrom_shape hg (v := v) hsf2 h3
+    obtain ⟨s3, r3, c3, p3, k3, e3⟩ := xferFrom_shape hg (v := v) hsf2 h3
     -- phase 4
     have hdel2 : v2.del f = some fsh := by rw [sf2.1, sf1.1]; exact hdf
     obtain ⟨v3', h3', i3, D3, _, fr3, oth3⟩ := xferFrom_total hg (v := v) i2 D2 hf hdel2 hle
@@ -219,7 +250,7 @@ theorem transfer_shape {c : Cfg} (hg : good c = true) {n : Nat} {v v' : VS} (hi 
     have hfresh : v1.del t = none → v3.refs (v3.period - 1) ≠ 0 := by
       intro hn
       rw [fr3 (fr2 hn)]; omega
-    obtain ⟨s4, r4, c4, p4, k4⟩ := xferTo_shape hg (v := v) hfresh h4
+    obtain ⟨s4, r4, c4, p4, k4, e4⟩ := xferTo_shape hg (v := v) hfresh h4
     have htok : ∀ x, v'.tokensFromSharesTrunc x = v.tokensFromSharesTrunc x := by
       intro x
       obtain ⟨_, _, _, _, ht', hs', _⟩ := transfer_del hg hne ht
@@ -227,7 +258,9 @@ theorem transfer_shape {c : Cfg} (hg : good c = true) {n : Nat} {v v' : VS} (hi 
     have hP1 : v1.period = v.period + 1 := p1
     have hP2 : v2.period = v.period + 2 := by omega
     have hP3 : v3.period = v.period + 2 := by omega
-    refine ⟨fsh, hdf, by omega, by rw [c4, c3]; exact c2, ?_, ?_, ?_⟩
+    have hsl2 := xferLookup_slashes hl
+    have hsl1 := withdrawMsg_slashes h1
+    refine ⟨fsh, hdf, by omega, by rw [c4, c3]; exact c2, ?_, ?_, ?_, ?_, ?_, by rw [e4, e3, hsl2, hsl1]⟩
     · -- ratios: record P (written by phase 1) = record P+1 (written by phase 2 with nothing accrued)
       rw [r4, r4, r3]
       have a : v2.ratio v.period = v1.ratio v.period := o2 _ (by omega)
@@ -267,5 +300,16 @@ theorem transfer_shape {c : Cfg} (hg : good c = true) {n : Nat} {v v' : VS} (hi 
       · simp [hz]
       · simp only [hz, if_false]
         rw [htok]
+    · intro d hdf' hdt'
+      rw [s4]
+      simp only [setAt, hdt', if_false]
+      rw [s3]
+      simp only [setAt, hdf', if_false]
+      rw [s2]
+      cases hd : v1.del t with
+      | none => dsimp only; rw [s1]; simp [setAt, hdf']
+      | some tsh => dsimp only; rw [s1]; simp [setAt, hdf', hdt']
+    · intro x hx
+      rw [r4, r3, o2 x (by omega), o1 x (by omega)]
 
 end FxVerif.Proofs.C11
